@@ -95,7 +95,34 @@ ShiftPairs ==
        a |-> [BaseEvent("Deposit") EXCEPT !.rch = "bsc"],
        b |-> [BaseEvent("Deposit") EXCEPT !.rch = "minter"]] }
 
-Pairs == {p \in MutationPairs : WellFormed(p)} \cup ShiftPairs
+\* wrap-around pairs: big-integer fields that differ by a power of two (a hash over a narrowed integer would not see it)
+WrapPairs ==
+    { [kind |-> "wrap", t |-> "Deposit", field |-> "amt", note |-> "the value plus 2^32 (an integer narrowed to 32 bits before hashing gives the same bytes)", chain |-> "ethereum",
+       a |-> BaseEvent("Deposit"), b |-> [BaseEvent("Deposit") EXCEPT !.amt = "4294967346"]],
+      [kind |-> "wrap", t |-> "Deposit", field |-> "amt", note |-> "the value plus 2^64 (an integer narrowed to 64 bits before hashing gives the same bytes)", chain |-> "ethereum",
+       a |-> BaseEvent("Deposit"), b |-> [BaseEvent("Deposit") EXCEPT !.amt = "18446744073709551666"]],
+      [kind |-> "wrap", t |-> "Deposit", field |-> "amt", note |-> "the value plus 2^128 (an integer narrowed to 128 bits before hashing gives the same bytes)", chain |-> "ethereum",
+       a |-> BaseEvent("Deposit"), b |-> [BaseEvent("Deposit") EXCEPT !.amt = "340282366920938463463374607431768211506"]],
+      [kind |-> "wrap", t |-> "Deposit", field |-> "fee", note |-> "the value plus 2^32 (an integer narrowed to 32 bits before hashing gives the same bytes)", chain |-> "ethereum",
+       a |-> BaseEvent("Deposit"), b |-> [BaseEvent("Deposit") EXCEPT !.fee = "4294967298"]],
+      [kind |-> "wrap", t |-> "Deposit", field |-> "fee", note |-> "the value plus 2^64 (an integer narrowed to 64 bits before hashing gives the same bytes)", chain |-> "ethereum",
+       a |-> BaseEvent("Deposit"), b |-> [BaseEvent("Deposit") EXCEPT !.fee = "18446744073709551618"]],
+      [kind |-> "wrap", t |-> "Deposit", field |-> "fee", note |-> "the value plus 2^128 (an integer narrowed to 128 bits before hashing gives the same bytes)", chain |-> "ethereum",
+       a |-> BaseEvent("Deposit"), b |-> [BaseEvent("Deposit") EXCEPT !.fee = "340282366920938463463374607431768211458"]],
+      [kind |-> "wrap", t |-> "ToHub", field |-> "amt", note |-> "the value plus 2^32 (an integer narrowed to 32 bits before hashing gives the same bytes)", chain |-> "ethereum",
+       a |-> BaseEvent("ToHub"), b |-> [BaseEvent("ToHub") EXCEPT !.amt = "4294967346"]],
+      [kind |-> "wrap", t |-> "ToHub", field |-> "amt", note |-> "the value plus 2^64 (an integer narrowed to 64 bits before hashing gives the same bytes)", chain |-> "ethereum",
+       a |-> BaseEvent("ToHub"), b |-> [BaseEvent("ToHub") EXCEPT !.amt = "18446744073709551666"]],
+      [kind |-> "wrap", t |-> "ToHub", field |-> "amt", note |-> "the value plus 2^128 (an integer narrowed to 128 bits before hashing gives the same bytes)", chain |-> "ethereum",
+       a |-> BaseEvent("ToHub"), b |-> [BaseEvent("ToHub") EXCEPT !.amt = "340282366920938463463374607431768211506"]],
+      [kind |-> "wrap", t |-> "Exec", field |-> "fp", note |-> "the value plus 2^32 (an integer narrowed to 32 bits before hashing gives the same bytes)", chain |-> "ethereum",
+       a |-> BaseEvent("Exec"), b |-> [BaseEvent("Exec") EXCEPT !.fp = "4294967299"]],
+      [kind |-> "wrap", t |-> "Exec", field |-> "fp", note |-> "the value plus 2^64 (an integer narrowed to 64 bits before hashing gives the same bytes)", chain |-> "ethereum",
+       a |-> BaseEvent("Exec"), b |-> [BaseEvent("Exec") EXCEPT !.fp = "18446744073709551619"]],
+      [kind |-> "wrap", t |-> "Exec", field |-> "fp", note |-> "the value plus 2^128 (an integer narrowed to 128 bits before hashing gives the same bytes)", chain |-> "ethereum",
+       a |-> BaseEvent("Exec"), b |-> [BaseEvent("Exec") EXCEPT !.fp = "340282366920938463463374607431768211459"]] }
+
+Pairs == {p \in MutationPairs : WellFormed(p)} \cup ShiftPairs \cup WrapPairs
 
 \* ---- the model: one state per pair; the invariant is the property on the specification's identifier
 VARIABLE pair
@@ -103,7 +130,9 @@ Init == pair \in Pairs
 Next == UNCHANGED pair
 Spec == Init /\ [][Next]_pair
 
-DistinctIds == (pair.a # pair.b) => (pair.kind = "shift" \/ Id(pair.a) # Id(pair.b))
+\* (shift and wrap pairs mix integers and decimal strings in one field: their identifiers are not compared in TLC,
+\*  the real hashes are)
+DistinctIds == (pair.kind \in {"shift", "wrap"}) \/ (pair.a # pair.b => Id(pair.a) # Id(pair.b))
 
 \* vectors for the harness (evaluated once)
 ASSUME IF "VERIF_OUT" \in DOMAIN IOEnv THEN JsonSerialize(IOEnv.VERIF_OUT, SetToSeq(Pairs)) ELSE TRUE
